@@ -13,6 +13,37 @@ from harness import core, docs, engine, optprops, spec
 from harness.docs import C1
 
 
+def reencode(ekern_text, enc):
+    """the rows of the extended export re-encoded cell by cell (kern: both separators removed; basic encodings: every
+    note cut at its first signifier separator); a cell that becomes empty is a null placeholder, all-null rows vanish"""
+    rows = []
+    for line in ekern_text.split('\n'):
+        if line == '':
+            continue
+        cells = []
+        for c in line.split('\t'):
+            if c.startswith('**e'):
+                cells.append('**' + spec.PREFIX[enc] + c[3:])
+                continue
+            if enc == 'kern':
+                t = c.replace('@', '').replace('\u00b7', '')
+            else:
+                t = c
+                if '\u00b7' in c:
+                    parts = []
+                    for note in c.split(' '):
+                        head = note.split('\u00b7')[0]
+                        parts.append(head[:-1] if head.endswith('@') else head)
+                    t = ' '.join(parts)
+                if enc == 'bkern':
+                    t = t.replace('@', '')
+            cells.append(t if t != '' else '.')
+        if all(c in ('.', '*', '') for c in cells):
+            continue
+        rows.append(cells)
+    return rows
+
+
 def worker(kp, job):
     seed, idx = job
     rng = random.Random(seed * 122949829 + idx)
@@ -46,7 +77,21 @@ def worker(kp, job):
                 o['exclude'] = rng.sample(pool, rng.randint(1, 4))
         if 'enc' in which:
             o['encoding'] = rng.choice(optprops.ENCODINGS)
-        records.append(optprops.evaluate(kp, g, doc, bad, text, o, '+'.join(sorted(which)), clause='composition'))
+        rec = optprops.evaluate(kp, g, doc, bad, text, o, '+'.join(sorted(which)), clause='composition')
+        # the encoding composes with the other options: re-encoding the EXTENDED export made with the same selection and
+        # filter gives the export made with the encoding (cell by cell, on kernpy's own outputs - also for the rows the
+        # oracle does not pin down)
+        enc = o.get('encoding')
+        if enc in ('kern', 'bkern', 'bekern') and rec['impl'].startswith('ok:') and not rec['viol']:
+            ek = docs.impl_dumps(kp, doc, **dict(o, encoding='ekern'))
+            if ek.startswith('ok:'):
+                want_rows = reencode(ek[3:], enc)
+                got_rows = [l.split('\t') for l in rec['impl'][3:].split('\n') if l != '']
+                if want_rows != got_rows:
+                    k = next((i for i in range(min(len(want_rows), len(got_rows))) if want_rows[i] != got_rows[i]), min(len(want_rows), len(got_rows)))
+                    rec['viol'].append(('composition', f'options {optprops.fmt(o)}: line {k + 1} is {got_rows[k] if k < len(got_rows) else None}, re-encoding the extended export '
+                                        f'made with the same selection gives {want_rows[k] if k < len(want_rows) else None}', {'text': text, 'options': o}))
+        records.append(rec)
     # explicit defaults = omission
     base = docs.impl_dumps(kp, doc)
     TC = kp.TokenCategory
